@@ -244,7 +244,9 @@ class Emit:
             b = 'b"%s"' % n.text.lower() if n.insensitive else 'b"%s"' % n.text
             return s.fn(name, s.skipped(skip, 'cx.%s(%s, p)' % ('lit_i' if n.insensitive else 'lit', b)))
         if isinstance(n, Rng):
-            return s.fn(name, s.skipped(skip, "cx.range(b'%s', b'%s', p)" % (n.lo, n.hi)))
+            if ord(n.lo) < 128 and ord(n.hi) < 128:
+                return s.fn(name, s.skipped(skip, "cx.range(b'%s', b'%s', p)" % (n.lo, n.hi)))
+            return s.fn(name, s.skipped(skip, "cx.range_c('%s', '%s', p)" % (n.lo, n.hi)))
         if isinstance(n, AnyChar):
             return s.fn(name, s.skipped(skip, 'cx.anychar(p)'))
         if isinstance(n, Eoi):
